@@ -507,6 +507,7 @@ type Result struct {
 	Templates  []string            `json:"templates,omitempty"`
 	Files      map[string]string   `json:"files,omitempty"`
 	RepeatSums []map[string]string `json:"repeat_sums,omitempty"`
+	RepeatOK   []bool              `json:"repeat_ok,omitempty"`
 	DurUS      int64               `json:"dur_us"`
 	// Fatal is set by the pool when the vgen process died on this job.
 	Fatal string `json:"fatal,omitempty"`
